@@ -30,7 +30,10 @@ LEVEL_TEXT = ("Machine-checked theorems about a hand model of the result-event m
               "attribute with the requested local name and a prefix the namespace stack binds to the requested URI "
               "(partial: the code's getPrefixForNamespace ignores shadowing - counterexample proved and replayed); "
               "xsl:attribute without a namespace does the same when the URI is not yet bound (partial, with the "
-              "ns<N>-not-declared counterexample of DESIGN 6 item 19); the invented prefix is fresh (partial); "
+              "ns<N>-not-declared counterexample of DESIGN 6 item 19) and unconditionally for the repaired code "
+              "(..._fixed theorems; translate/c14_variant.py tells which form of five code sites the tree has); the "
+              "invented prefix is always fresh (pigeonhole); the lazily created XalanNamespacesStack refines a plain "
+              "stack of frames for every push/pop/add history; compile-time exclusion keeps only needed declarations; "
               "counterexamples for duplicate expanded names and for late attributes leaking to the next element. The "
               "model is tied to the working tree by running generated stylesheets through the real library and the "
               "compiled model and comparing the complete start-tag/attribute stream; the property itself is evaluated "
@@ -40,7 +43,9 @@ LEVEL_NOTE = ("Trusted: Lean kernel; axioms propext/Classical.choice/Quot.sound 
               "coverage; QName strings abstracted to (prefix, local) pairs; expat as the reference parser. Modelled, "
               "not verified: AVT evaluation, attribute sets, namespace-alias, extension namespaces, result tree "
               "fragments, the serializer (C04), the source tree builder. Theorems are about single engine operations "
-              "and arbitrary sequences of them; the stylesheet interpreter (exec) is validated only by correspondence.")
+              "and arbitrary sequences of them; the (total) stylesheet interpreter exec is validated only by "
+              "correspondence; the regex translator c14_variant.py is trusted to recognise the five code sites "
+              "(cross-checked by the correspondence run).")
 DESIGN_REF = "DESIGN.md section 5, C14; design/C14.md"
 
 THEOREMS = [
